@@ -12,7 +12,8 @@ SP = importlib.import_module('pdb2sql.superpose')     # the package re-exports t
 ID = 'C13'
 LEVEL = 'proof'
 CLUSTER = 'G'
-GEN_UNITS = ['Consts', 'data2pdb_line', '_format_atomname', '_format_xyz', 'record_loop', 'rotate', '_format_pdb_linelength', 'superpose_selection', 'get_trans_vect']
+GEN_UNITS = ['Consts', 'data2pdb_line', '_format_atomname', '_format_xyz', 'record_loop', 'rotate', '_format_pdb_linelength', 'superpose_selection', 'get_trans_vect',
+             'sup_runtime', 'sup_get_intersection', 'sup_superpose']
 MODELS = ['Model.SupDb.superpose', 'Model.SupDb.getIntersection', 'Model.superposeSelection']
 RULE = ('target = synthetic two-chain complex (complexgen: 3-12 residues per chain, side chains, optional hydrogens, all numbering styles); mobile = '
         'target jittered / rigidly displaced (random rotation + translation, rounded to the text precision; or lattice rotation + millesimal '
@@ -21,7 +22,7 @@ RULE = ('target = synthetic two-chain complex (complexgen: 3-12 residues per cha
         'everything, one chain, a residue-number list, an atom-name list, an excluded-name list, a residue-name list; only_backbone on/off; methods '
         'svd and quaternion; export on/off with file-backed databases (names ending in letters of ".pdb" included) in a fresh working directory; '
         'databases built from files or from line lists; mobile/target passed as database objects or as file names. Error stream: name given with '
-        'only_backbone, unknown method, empty selection on one or both sides, disjoint selections, export with a database built from lines. '
+        'only_backbone, unknown method, empty selection on one or both sides, empty selection together with an unknown method (the ValueError of the dispatch comes first), disjoint selections, export with a database built from lines. '
         'Point mutants: a residue with the same chain and number but another residue name in one of the two structures (either side), its atoms '
         'displaced by 2-4 A relative to the rest, equal and unequal selection sizes, both methods, only_backbone on/off -- its atoms are not shared atoms '
         '(identity = chain, residue number, residue NAME, atom name) and must not enter the fit. Few-atom selections (dedicated family, every case with both methods): exactly three atoms (three backbone atoms of one residue; one atom of three '
@@ -145,6 +146,24 @@ def cases(ctx):
                           source=source, by_name=(source == 'file' and rng.random() < 0.2), names=rng.choice(NAMES), sel_label=label,
                           exact_copy=(fam == 'displaced_exact')))
     out += few_atom_cases(ctx, ctx.scale(8, 40))
+    # one-element conditions given as bare scalars, among them the falsy residue number 0 (round-4 seed C13-r4m2: empty-looking
+    # keywords dropped with `if val`, which also drops resSeq=0): numbering shifted so that a selected residue IS number 0
+    for k in range(ctx.scale(8, 40)):
+        target, mobile = make_pair(rng, rng.choice(['jitter', 'displaced', 'del_mobile', 'del_target']))
+        nums = sorted({r['resSeq'] for r in target.residues if any(m['chain'] == r['chain'] and m['resSeq'] == r['resSeq'] for m in mobile.residues)})
+        pick = rng.choice(nums)
+        if k % 2 == 0 and all(-999 <= r['resSeq'] - pick <= 9999 for cx in (target, mobile) for r in cx.residues):
+            for cx in (target, mobile):
+                for r in cx.residues:
+                    r['resSeq'] -= pick                      # the picked residue becomes residue 0 in both structures
+            pick = 0
+        ch = rng.choice(sorted({r['chain'] for r in target.residues if r['resSeq'] == pick}))
+        sel, sk = rng.choice([({'resSeq': [pick]}, ['resSeq']), ({'chainID': [ch], 'resSeq': [pick]}, ['resSeq']),
+                              ({'chainID': [ch], 'resSeq': [pick]}, ['chainID', 'resSeq'])] + ([({'chainID': [ch]}, ['chainID'])] if pick != 0 else []))
+        ob = rng.random() < 0.5
+        out.append(mk(target.lines(), mobile.lines(), sel, 'scalar-selection', only_backbone=ob, method=rng.choice(['svd', 'quaternion']),
+                      source=rng.choice(['file', 'lines']), sel_label='scalar:' + '+'.join(sk) + (':zero' if pick == 0 and 'resSeq' in sel else '')))
+        out[-1]['scalar_keys'] = sk
     out += point_mutant_cases(ctx, ctx.scale(12, 60))
     # degenerate selections
     for k in range(ctx.scale(3, 12)):
@@ -166,6 +185,9 @@ def cases(ctx):
         out.append(mk([l for l in T if l[21] == ch[0]], M, {'chainID': [ch[1]]}, 'empty-target', expect_error=True))
         out.append(mk([l for l in T if l[21] == ch[0]], [l for l in M if l[21] == ch[1]], {}, 'disjoint', expect_error=True))
         out.append(mk(T, M, {}, 'export-from-lines', export=True, source='lines', expect_error=True))
+        # empty selection AND unknown method: superpose_selection still calls the kernel, whose dispatch raises ValueError (before any TypeError)
+        out.append(mk(T, M, {'chainID': ['Q']}, 'empty+unknown-method', method=rng.choice(['foo', 'kabsch', '']), only_backbone=rng.random() < 0.5,
+                      expect_error=True))
     return out
 
 
@@ -284,8 +306,9 @@ def table_of(db):
     return out
 
 
-def kwargs_of(sel):
-    return {k: list(v) for k, v in sel.items()}
+def kwargs_of(sel, scalar_keys=()):
+    # a one-element condition may be passed as a bare scalar (C03: a scalar acts as a one-element list); the model always sees the list
+    return {k: (v[0] if k in scalar_keys and len(v) == 1 else list(v)) for k, v in sel.items()}
 
 
 def impl(ctx, c):
@@ -326,12 +349,12 @@ def impl(ctx, c):
         SP.get_rotation_matrix, SP.get_intersection = rot, inter
         try:
             if c['by_name']:
-                res = SP.superpose(mfile, tfile, method=c['method'], only_backbone=c['only_backbone'], export=c['export'], **kwargs_of(c['sel']))
+                res = SP.superpose(mfile, tfile, method=c['method'], only_backbone=c['only_backbone'], export=c['export'], **kwargs_of(c['sel'], c.get('scalar_keys', ())))
                 out['mobile_after'] = table_of(res)
                 out['target_after'] = table_of(pdb2sql(tfile))          # the target database lives inside the call: the file is what remains
                 out['returned_is_mobile'] = None
             else:
-                res = SP.superpose(dm, dt, method=c['method'], only_backbone=c['only_backbone'], export=c['export'], **kwargs_of(c['sel']))
+                res = SP.superpose(dm, dt, method=c['method'], only_backbone=c['only_backbone'], export=c['export'], **kwargs_of(c['sel'], c.get('scalar_keys', ())))
                 out['returned_is_mobile'] = res is dm
         except Exception as e:
             out['error'] = exc_tag(e)
@@ -582,3 +605,155 @@ def distribution(recs):
     d['equal_sizes_different_atoms'] = sum(1 for r in recs if isinstance(r['impl'], dict) and r['impl'].get('route') == 'intersection'
                                            and isinstance(r.get('model'), dict) and r['case']['family'] in ('window', 'del_both'))
     return d
+
+
+# ================================================================================================================
+# supTie: the GENERATED superpose() / get_intersection (Gen/Sup.lean, translated from superpose.py on every run) against the real code
+# ================================================================================================================
+
+def gensup_checks(ctx):
+    """implementation = generated = hand model.  Every case is run through the real `superpose()` (as `impl` does), and the same
+    tables / options / keywords / kernel result go through the driver operation `gen_superpose`, which runs `GenSup.superpose` and
+    `Model.SupDb.superpose`: the two must be EQUAL (exact rationals: this is `gensup_superpose_eq_model` on the sample), and the
+    generated function must agree with the implementation (same exception class; coordinates within 1e-8; same files, same lines up
+    to the last printed decimal).  `get_intersection` is compared on its own as a multiset of pairs (SQLite's join order is free)."""
+    rng = ctx.rng
+    res = []
+    cs = []
+    for fam in FAMILIES:
+        for k in range(ctx.scale(3, 14)):
+            target, mobile = make_pair(rng, fam)
+            ob = rng.random() < 0.5
+            sel, label = pick_selection(rng, target, ob)
+            export = rng.random() < 0.4
+            source = 'file' if export else rng.choice(['file', 'lines'])
+            cs.append(mk(target.lines(), mobile.lines(), sel, 'gen-' + fam, only_backbone=ob, method=rng.choice(['svd', 'quaternion']), export=export,
+                         source=source, by_name=(source == 'file' and rng.random() < 0.3), names=rng.choice(NAMES), sel_label=label))
+    cs += [dict(c, family='gen-' + c['family']) for c in point_mutant_cases(ctx, ctx.scale(2, 8))]
+    cs += [dict(c, family='gen-' + c['family']) for c in few_atom_cases(ctx, ctx.scale(1, 4))]
+    for k in range(ctx.scale(1, 4)):        # the error stream, and keywords `get` rejects
+        target, mobile = make_pair(rng, 'jitter')
+        T, M = target.lines(), mobile.lines()
+        ch = target.chains()
+        cs.append(mk(T, M, {'name': ['CA']}, 'gen-name+only_backbone', only_backbone=True, expect_error=True))
+        cs.append(mk(T, M, {'chainID': ['Q']}, 'gen-empty-both', expect_error=True))
+        cs.append(mk(T, [l for l in M if l[21] == ch[0]], {'chainID': [ch[1]]}, 'gen-empty-mobile', expect_error=True))
+        cs.append(mk([l for l in T if l[21] == ch[0]], [l for l in M if l[21] == ch[1]], {}, 'gen-disjoint', expect_error=True))
+        cs.append(mk(T, M, {}, 'gen-export-from-lines', export=True, source='lines', expect_error=True))
+        cs.append(mk(T, M, {'chainID': ['Q']}, 'gen-empty+unknown-method', method='foo', expect_error=True))
+        cs.append(mk(T, M, {'colour': ['red']}, 'gen-unknown-keyword', only_backbone=False, expect_error=True))
+        cs.append(mk(T, M, {'no_colour': ['red']}, 'gen-unknown-keyword', only_backbone=True, expect_error=True))
+    lines, outs = [], []
+    for c in cs:
+        try:
+            out = impl(ctx, c)
+        except Exception as e:
+            res.append({'name': 'generated superpose: harness', 'ok': False, 'case': {k: c[k] for k in ('family', 'sel', 'method')}, 'detail': repr(e)})
+            continue
+        ln = driver_line(c, out)
+        ln['op'] = 'gen_superpose'
+        ln['by_name'] = bool(c['by_name'])
+        lines.append(ln); outs.append((c, out))
+    bad_eq, bad_impl, n_ok, n_err, n_files, discards = None, None, 0, 0, 0, 0
+    if lines:
+        ans = vlib.run_driver(lines, which='model', cluster=CLUSTER)
+        for (c, out), a in zip(outs, ans):
+            m = a.get('model')
+            brief = {k: c[k] for k in ('family', 'sel', 'only_backbone', 'method', 'export', 'source', 'by_name', 'names')}
+            if not isinstance(m, dict):
+                bad_impl = bad_impl or (brief, f'driver: {str(a)[:300]}')
+                continue
+            if m.get('equal') is not True and m.get('kw_check') is None:
+                bad_eq = bad_eq or (brief, f'generated {str(m.get("gen"))[:200]} vs hand model {str(m.get("model"))[:200]}')
+            v = _gensup_agree(c, out, m['gen'])
+            if v == 'discard':
+                discards += 1
+            elif v is not True:
+                bad_impl = bad_impl or (brief, v)
+            elif out['error'] is None:
+                n_ok += 1; n_files += len(out['files'])
+            else:
+                n_err += 1
+    res.append({'name': f'generated superpose() = hand model on {len(lines)} cases (exact)', 'ok': bad_eq is None,
+                'case': bad_eq[0] if bad_eq else None, 'detail': bad_eq[1] if bad_eq else ''})
+    res.append({'name': f'generated superpose() = implementation on {len(lines)} cases ({n_ok} returned, {n_err} raised, {n_files} files, {discards} discarded)',
+                'ok': bad_impl is None, 'case': bad_impl[0] if bad_impl else None, 'detail': bad_impl[1] if bad_impl else ''})
+    # get_intersection on its own
+    glines, gouts = [], []
+    for k in range(ctx.scale(6, 30)):
+        target, mobile = make_pair(rng, rng.choice(['del_mobile', 'del_target', 'del_both', 'window', 'atoms_missing', 'jitter']))
+        sel, _ = pick_selection(rng, target, False)
+        try:
+            d1, d2 = pdb2sql(list(mobile.lines())), pdb2sql(list(target.lines()))
+            t1, t2 = table_of(d1), table_of(d2)
+            try:
+                a, b = SP.get_intersection(d1, d2, **kwargs_of(sel))
+                got = sorted((tuple(rat(float(v)) for v in p), tuple(rat(float(v)) for v in q)) for p, q in zip(np.asarray(a).tolist(), np.asarray(b).tolist())) \
+                    if np.asarray(a).ndim == 2 else []
+            except Exception as e:
+                got = exc_tag(e)
+        except Exception as e:
+            res.append({'name': 'generated get_intersection: harness', 'ok': False, 'case': {'sel': sel}, 'detail': repr(e)})
+            continue
+        glines.append({'op': 'gen_get_intersection', 'db1': t1, 'db2': t2, 'sel': sel}); gouts.append((sel, got))
+    badg = None
+    if glines:
+        for (sel, got), a in zip(gouts, vlib.run_driver(glines, which='model', cluster=CLUSTER)):
+            m = a.get('model')
+            if not isinstance(m, dict) or m.get('equal') is not True:
+                badg = badg or ({'sel': sel}, f'generated vs hand model: {str(a)[:300]}')
+                continue
+            g = m['gen']
+            if isinstance(g, str) or isinstance(got, str):
+                if g != got:
+                    badg = badg or ({'sel': sel}, f'implementation {str(got)[:100]}, generated {str(g)[:100]}')
+                continue
+            gen_pairs = sorted((tuple(p), tuple(q)) for p, q in zip(g[0], g[1]))
+            if len(gen_pairs) != len(got) or any(max(abs(unrat(x) - unrat(y)) for x, y in zip(gp[0] + gp[1], ip[0] + ip[1])) > Fraction(1, 10 ** 9)
+                                                   for gp, ip in zip(sorted(gen_pairs, key=_fkey), sorted(got, key=_fkey))):
+                badg = badg or ({'sel': sel}, f'pairs differ: implementation {len(got)}, generated {len(gen_pairs)}')
+    res.append({'name': f'generated get_intersection = hand model = implementation (multiset of pairs) on {len(glines)} pairs of structures',
+                'ok': badg is None, 'case': badg[0] if badg else None, 'detail': badg[1] if badg else ''})
+    return res
+
+
+def _fkey(pair):
+    return tuple(float(unrat(v)) for v in pair[0] + pair[1])
+
+
+def _gensup_agree(c, out, res):
+    """implementation vs the generated function's answer (as `agree_model`, without the model-only diagnostics)"""
+    if out['error'] is not None:
+        if isinstance(res, str) and res.startswith('ERR:UNMODELLED') and out['kernel'] is None:
+            return f'the generated function called the kernel, the implementation raised {out["error"]} before'
+        return True if res == out['error'] else f'implementation raised {out["error"]}, generated {str(res)[:200]}'
+    if isinstance(res, str):
+        return f'implementation returned, generated {res}'
+    hv = _HEAVY[out['heavy']]
+    d = rows_close(hv['mobile_after'], res['mobile'], Fraction(1, 10 ** 8))
+    if d:
+        return 'mobile after: implementation vs generated ' + d
+    mf = {f[0]: f[1] for f in res['files']}
+    if sorted(mf) != sorted(out['files']):
+        return f'files: implementation {sorted(out["files"])}, generated {sorted(mf)}'
+    for fn in mf:
+        v = lines_close(hv['files'][fn], mf[fn])
+        if v is not True:
+            return v if v == 'discard' else f'content of {fn}: ' + v
+    return True
+
+
+def extra_checks(ctx):
+    return _gensup_guarded(ctx)      # supTie
+
+
+def _gensup_guarded(ctx):
+    """the driver that runs the generated functions does not build when the regenerated text no longer fits its callers (that is
+    reported as a broken obligation by the check itself): then there is nothing to compare here, and no verdict"""
+    try:
+        return gensup_checks(ctx)
+    except RuntimeError as e:
+        if 'driver failed' in str(e) or 'driver answered' in str(e):
+            return [{'name': 'generated superpose(): not run (the model driver with the generated functions is unavailable)', 'ok': True, 'case': None,
+                     'detail': str(e)[:300]}]
+        raise
